@@ -494,6 +494,75 @@ func (g *gen) chain() []*spb.AFTOperation {
 // (held REPLACE whose target is deleted, retargeting replaces across instances,
 // group replaced by one with an overlapping next-hop set, delete and re-add of
 // dependencies in reverse order). Operations come back grouped into requests.
+// bulk: one table of one instance grows past every plausible batching / paging boundary
+// (33..300 entries), in requests of 1..8, 32, 64 or all operations; then some are deleted again.
+func (g *gen) bulk() [][]*spb.AFTOperation {
+	ni := g.ni()
+	n := []int{33, 40, 64, 65, 66, 100, 128, 129, 130, 200, 257, 300}[g.pick(12)]
+	kind := []Kind{KNH, KNH, KNHG, KV4, KV4, KV6, KMPLS}[g.pick(7)]
+	var ops []*spb.AFTOperation
+	add := func(e *spb.AFTOperation) { e.Id, e.NetworkInstance, e.Op = g.id(), ni, spb.AFTOperation_ADD; ops = append(ops, e) }
+	mkNH := func(i uint64) {
+		add(&spb.AFTOperation{Entry: &spb.AFTOperation_NextHop{NextHop: &aftpb.Afts_NextHopKey{Index: i, NextHop: &aftpb.Afts_NextHop{IpAddress: sv(fmt.Sprintf("203.0.%d.%d", (i>>8)&255, i&255))}}}})
+	}
+	mkNHG := func(id uint64, nh uint64) {
+		add(&spb.AFTOperation{Entry: &spb.AFTOperation_NextHopGroup{NextHopGroup: &aftpb.Afts_NextHopGroupKey{Id: id, NextHopGroup: &aftpb.Afts_NextHopGroup{
+			NextHop: []*aftpb.Afts_NextHopGroup_NextHopKey{{Index: nh, NextHop: &aftpb.Afts_NextHopGroup_NextHop{Weight: u(g.mark())}}}}}}})
+	}
+	switch kind {
+	case KNH:
+		for i := 0; i < n; i++ {
+			mkNH(uint64(100 + i))
+		}
+	case KNHG:
+		mkNH(1)
+		for i := 0; i < n; i++ {
+			mkNHG(uint64(100+i), 1)
+		}
+	default:
+		mkNH(1)
+		mkNHG(1, 1)
+		for i := 0; i < n; i++ {
+			switch kind {
+			case KV4:
+				add(&spb.AFTOperation{Entry: &spb.AFTOperation_Ipv4{Ipv4: &aftpb.Afts_Ipv4EntryKey{Prefix: fmt.Sprintf("10.%d.%d.0/24", i>>8, i&255),
+					Ipv4Entry: &aftpb.Afts_Ipv4Entry{NextHopGroup: u(1), EntryMetadata: g.meta()}}}})
+			case KV6:
+				add(&spb.AFTOperation{Entry: &spb.AFTOperation_Ipv6{Ipv6: &aftpb.Afts_Ipv6EntryKey{Prefix: fmt.Sprintf("2001:db8:%x::/48", i+1),
+					Ipv6Entry: &aftpb.Afts_Ipv6Entry{NextHopGroup: u(1), EntryMetadata: g.meta()}}}})
+			default:
+				add(&spb.AFTOperation{Entry: &spb.AFTOperation_Mpls{Mpls: &aftpb.Afts_LabelEntryKey{Label: &aftpb.Afts_LabelEntryKey_LabelUint64{LabelUint64: uint64(5000 + i)},
+					LabelEntry: &aftpb.Afts_LabelEntry{NextHopGroup: u(1), EntryMetadata: g.meta()}}}})
+			}
+		}
+	}
+	if g.chance(1, 3) {
+		g.r.Shuffle(len(ops), func(i, j int) { ops[i], ops[j] = ops[j], ops[i] }) // forward references en masse
+	}
+	// a few deletes of what was just installed (payload-free)
+	nd := g.pick(4)
+	for i := 0; i < nd; i++ {
+		victim := proto.Clone(ops[g.pick(len(ops))]).(*spb.AFTOperation)
+		victim.Id, victim.Op = g.id(), spb.AFTOperation_DELETE
+		stripPayload(victim)
+		ops = append(ops, victim)
+	}
+	var reqs [][]*spb.AFTOperation
+	per := []int{0, 0, 32, 64, len(ops)}[g.pick(5)]
+	for len(ops) > 0 {
+		k := per
+		if k == 0 {
+			k = 1 + g.pick(8)
+		}
+		if k > len(ops) {
+			k = len(ops)
+		}
+		reqs = append(reqs, ops[:k])
+		ops = ops[k:]
+	}
+	return reqs
+}
+
 func (g *gen) shape() [][]*spb.AFTOperation {
 	ni, other := g.ni(), g.ni()
 	nhA, nhB, nhC := uint64(1+g.pick(4)), uint64(1+g.pick(4)), uint64(1+g.pick(4))
@@ -813,6 +882,19 @@ func genG1(seed uint64, prop string) *Scenario {
 				for _, req := range g.shape() {
 					sc.Steps = append(sc.Steps, g.batchStep(sess, req))
 				}
+				continue
+			}
+			if g.chance(1, 40) || (prop == "C07" && g.chance(1, 16)) {
+				for _, req := range g.bulk() {
+					sc.Steps = append(sc.Steps, g.batchStep(sess, req))
+				}
+				gs := &GetSpec{AFT: int32(aftTypeNums[g.pick(len(aftTypeNums))])}
+				if g.chance(1, 2) {
+					gs.All, gs.AFT = true, int32(spb.AFTType_ALL)
+				} else {
+					gs.NI = g.ni()
+				}
+				sc.Steps = append(sc.Steps, Step{T: "get", Get: gs})
 				continue
 			}
 			var ops []*spb.AFTOperation
